@@ -75,10 +75,11 @@ class Object(metaclass=ObjectMeta):
         """
         if value is self:
             return
-        if isinstance(value, NotPassed) and not isinstance(
-            self.default, NotPassed
-        ):
-            value = self.default
+        # Read the default from the class: a property named `default` sets an
+        # instance attribute of the same name.
+        default = type(self).default
+        if isinstance(value, NotPassed) and not isinstance(default, NotPassed):
+            value = default
         self._dict: Dict[str, Any] = {}
         for attr_name, attr_value in type(self).__properties__(value).items():
             if attr_name in type(self).properties:
